@@ -8,7 +8,7 @@ From Continuum Require Import Model.Base Model.VTable Model.Core.
 
 Definition rcfg : cfg :=
   mkcfg true false false false false
-    [mkcls true true 0 [mkcol true false; mkcol false false; mkcol false false] []].
+    [mkcls true true 0 [mkcol true false true; mkcol false false true; mkcol false false true] []].
 
 Definition rtrace : list ev :=
   [ Flush [mkobj 0 [true;true;true] [] true false]
